@@ -24,6 +24,8 @@ pub fn copy_raw_name_from_str(
     name: &[u8],
     raw_zone: Option<&[u8]>,
 ) -> Result<(), Error> {
+    #[cfg(feature = "verif_hooks")]
+    crate::verif_hooks::step("copy_raw_name_from_str:begin");
     let mut label_len = 0u8;
     let mut label_start = 0;
     let raw_name_start = raw_name.len();
@@ -62,6 +64,8 @@ pub fn copy_raw_name_from_str(
         }
     }
     debug_assert!(DNS_MAX_HOSTNAME_LEN >= 253);
+    #[cfg(feature = "verif_hooks")]
+    crate::verif_hooks::step("copy_raw_name_from_str:end");
     if raw_name.len() - raw_name_start > 253 {
         bail!(DSError::InvalidName("Name too long"))
     }
@@ -99,6 +103,8 @@ impl RR {
         }
         let mut packet = Vec::with_capacity(rr_header.name.len() + 1 + DNS_RR_HEADER_SIZE + rdlen);
         copy_raw_name_from_str(&mut packet, &rr_header.name, None)?;
+        #[cfg(feature = "verif_hooks")]
+        crate::verif_hooks::step("rr_new");
         let mut header = [0u8; DNS_RR_HEADER_SIZE];
         BigEndian::write_u32(&mut header[DNS_RR_TTL_OFFSET..], rr_header.ttl);
         BigEndian::write_u16(&mut header[DNS_RR_CLASS_OFFSET..], rr_header.class.into());
@@ -128,6 +134,8 @@ impl RR {
     }
 
     pub fn from_string(s: &str) -> Result<RR, Error> {
+        #[cfg(feature = "verif_hooks")]
+        crate::verif_hooks::step("rr_from_string");
         match parse_only(rr_parser, s.as_bytes()) {
             Err(_) => bail!(DSError::ParseError),
             Ok(rr) => match rr {
